@@ -2,6 +2,7 @@
 package c20
 
 import (
+	"bytes"
 	"errors"
 	"fmt"
 	"hash/fnv"
@@ -22,6 +23,12 @@ type Case struct {
 	Prefix []byte   `json:"prefix"`
 	Chunks [][]byte `json:"chunks"`
 	Limit  int      `json:"limit"`
+	// Stack: the underlying writer of the indenting writer is itself an indenting writer (prefix Inner) over the
+	// sink; ToInner[i] says that chunk i is written to the inner writer directly, not through the outer one
+	// (as nested printers do: each level writes through its own writer).
+	Stack   bool   `json:"stacked,omitempty"`
+	Inner   []byte `json:"inner_prefix,omitempty"`
+	ToInner []bool `json:"to_inner,omitempty"`
 }
 
 type limW struct {
@@ -67,7 +74,83 @@ func refIndent(prefix, text []byte) (out []byte, prov []int) {
 	return
 }
 
+// checkStack: two indenting writers, one on top of the other. What the outer writer hands to its underlying writer
+// must be the one-shot rendering of the text written to it, in any division into Write calls, whatever kind of
+// writer that underlying writer is; here it is an indenting writer that also receives text of its own in between.
+// Model: the outer text O is rendered with the outer prefix, each outer Write contributes the bytes of that
+// rendering that belong to its argument (a prefix goes with the first byte of its line); these pieces and the
+// direct writes form, in call order, the inner text I; the sink must hold the rendering of I with the inner prefix.
+func checkStack(c Case) (o ev.Outcome) {
+	o.Sample = map[string]any{"stacked": true, "outer-prefix": string(c.Prefix), "inner-prefix": string(c.Inner), "chunks": quoteAll(c.Chunks), "to-inner": c.ToInner}
+	o.Key = fmt.Sprintf("stack|%q|%q|%q|%v", c.Prefix, c.Inner, c.Chunks, c.ToInner)
+	o.Class("stacked-writers")
+	var outer []byte
+	for i, ch := range c.Chunks {
+		if !(i < len(c.ToInner) && c.ToInner[i]) {
+			outer = append(outer, ch...)
+		}
+	}
+	ro, prov := refIndent(c.Prefix, outer)
+	// piece k of the outer rendering: output bytes whose caller byte lies in [from, to); a prefix byte goes with
+	// the caller byte that follows it
+	owner := make([]int, len(ro))
+	next := len(outer)
+	for i := len(ro) - 1; i >= 0; i-- {
+		if prov[i] >= 0 {
+			next = prov[i]
+		}
+		owner[i] = next
+	}
+	var inner []byte
+	pos, at := 0, 0
+	both, mid := false, false
+	for i, ch := range c.Chunks {
+		if i < len(c.ToInner) && c.ToInner[i] {
+			if len(inner) > 0 && inner[len(inner)-1] != '\n' && len(ch) > 0 {
+				mid = true
+			}
+			inner = append(inner, ch...)
+			both = true
+			continue
+		}
+		to := pos + len(ch)
+		for at < len(ro) && owner[at] < to {
+			inner = append(inner, ro[at])
+			at++
+		}
+		pos = to
+	}
+	want, _ := refIndent(c.Inner, inner)
+	o.NonTrivial = len(c.Prefix) > 0 && len(c.Inner) > 0 && both && bytes.IndexByte(outer, '\n') >= 0
+	if mid {
+		o.Class("stacked-writers/inner-continues-an-unfinished-line")
+	}
+	ev.Guard(&o, "stacked writers", func() {
+		var sink bytes.Buffer
+		in := indent.NewWriter(&sink, string(c.Inner))
+		out := indent.NewWriter(in, string(c.Prefix))
+		for i, ch := range c.Chunks {
+			w := out
+			if i < len(c.ToInner) && c.ToInner[i] {
+				w = in
+			}
+			n, err := w.Write(ch)
+			if err != nil || n != len(ch) {
+				o.Violate("successful-write-reports-full-length", "C20/stack/count", "Write #%d of %d bytes returned (%d, %v) on a sink that accepts everything", i, len(ch), n, err)
+				return
+			}
+		}
+		if !bytes.Equal(sink.Bytes(), want) {
+			o.Violate("chunk-independent-output", "C20/stack/bytes", "outer prefix %q over inner prefix %q: sink holds %q, the rendering is %q", c.Prefix, c.Inner, sink.Bytes(), want)
+		}
+	})
+	return o
+}
+
 func check(c Case) (o ev.Outcome) {
+	if c.Stack {
+		return checkStack(c)
+	}
 	var text []byte
 	for _, ch := range c.Chunks {
 		text = append(text, ch...)
@@ -288,6 +371,7 @@ func gen(t *rapid.T) Case {
 		}
 		return Case{Prefix: []byte(prefix), Chunks: chunks, Limit: limit}
 	}
+	stacked := rapid.IntRange(0, 7).Draw(t, "stacked-writers") == 0
 	var chunks [][]byte
 	pos := 0
 	for pos < len(text) {
@@ -300,6 +384,14 @@ func gen(t *rapid.T) Case {
 	}
 	if rapid.IntRange(0, 5).Draw(t, "trailingEmpty") == 0 {
 		chunks = append(chunks, []byte{})
+	}
+	if stacked {
+		c := Case{Prefix: []byte(prefix), Chunks: chunks, Limit: -1, Stack: true}
+		c.Inner = []byte(rapid.SampledFrom([]string{"  ", ">", "// ", "\t", "", "é"}).Draw(t, "inner-prefix"))
+		for range chunks {
+			c.ToInner = append(c.ToInner, rapid.IntRange(0, 3).Draw(t, "to-inner") == 0)
+		}
+		return c
 	}
 	ref, _ := refIndent([]byte(prefix), text)
 	limit := -1
@@ -315,7 +407,7 @@ func TestCheck(t *testing.T) {
 		Level: "fault_enumeration",
 		Rule: "a case is (prefix, successive Write arguments, number of output bytes the underlying writer accepts before failing or -1); " +
 			"exhaustive part: every text over {a,LF} up to the length bound x prefixes {'>','ab','a LF'} x every division into non-empty Write calls x every stop point; " +
-			"random part: texts up to 200 bytes with multi-byte runes, CR, TAB, and in a third of the cases bytes that are not UTF-8 (Latin-1, cut sequences, NUL; sometimes in the prefix too), chunkings that split runes and include empty calls; an eighth of the cases repeat the text to a length at or beside a power of two between 256 bytes and 64 KiB and hand it over in one to three large Write calls, with stop points anywhere or beside multiples of powers of two; " +
+			"random part: texts up to 200 bytes with multi-byte runes, CR, TAB, and in a third of the cases bytes that are not UTF-8 (Latin-1, cut sequences, NUL; sometimes in the prefix too), chunkings that split runes and include empty calls; an eighth of the cases repeat the text to a length at or beside a power of two between 256 bytes and 64 KiB and hand it over in one to three large Write calls, with stop points anywhere or beside multiples of powers of two; another eighth stack two indenting writers (the underlying writer of the outer one is an indenting writer with a prefix of its own) and send a quarter of the Write calls to the inner writer directly, as nested printers do; " +
 			"non-trivial = non-empty prefix, text with a line break, and either two or more Write calls or a fault inside the output; distinct by (prefix, chunks, limit)",
 		Assumptions: []string{
 			"the underlying writer obeys io.Writer: n < len(p) only together with an error",
